@@ -230,11 +230,19 @@ end ZapVerif.C19
 
 /-! ## opening and building ARE the source (table `Gen/TransOpen.lean`)
 
-The bodies of `open` (writer.go), `Config.openSinks` (config.go), `newFileSinkFromPath`, `newFileSinkFromURL`, `newSink`
-(sink.go) and `redirectStdLogAt` (global.go), translated mechanically, are interpreted with the registry, the OS opener,
-`url.Parse`, `Close` and the standard logger as parameters / recorded intrinsics.  What is proved is the ORDER and the
-CLEANUP: which calls happen on which path — the decision models of `Model/OpenBuild.lean` (`openAll`, the `.out` /
-`.errout` stages of `build`, `fileDecision`, `newSink`, `redirectAt`). -/
+The bodies of `open`, `Open`, `CombineWriteSyncers` (writer.go), `Config.Build`, `buildEncoder`, `buildOptions`,
+`openSinks` (config.go), `newFileSinkFromPath`, `newFileSinkFromURL`, `newSink`, `normalizeScheme` (sink.go) and
+`redirectStdLogAt` (global.go), translated mechanically, are interpreted with the registry, the OS opener, `url.Parse`,
+`newEncoder`, `Close`, the key order of a map, `sort.Strings`, `strings.ToLower` and the standard logger as parameters /
+recorded intrinsics; options, cores, loggers and combined syncers are free constructors.  `Build` is COMPOSED: it runs
+the translated `buildEncoder`, `openSinks` → `Open` → `open` (down to the registry calls) and `buildOptions`.  What is
+proved is the ORDER and the CLEANUP — which calls happen on which path — and that these are the decision models of
+`Model/OpenBuild.lean`: `open_is_openAll`, `Build_is_build`, `urlOK_is_fileDecision`, `normalizeScheme_is_model`;
+`redirectStdLogAt_matches_source` states `redirectAt` directly.
+
+A closure VALUE is `[its source text, the captured locals and receiver fields]`; the texts (`closeText`, `samplerText`)
+are read off the generated terms, so editing a closure's text does not break the theorems, while a call of the closure
+inside the function is its body, inlined (the cleanup loop of `open`). -/
 namespace ZapVerif.C19
 set_option linter.unusedSimpArgs false
 open ZapVerif ZapVerif.GoMini ZapVerif.TransOpen ZapVerif.Gen.TransOpen
@@ -354,6 +362,34 @@ theorem newFileSinkFromURL_matches_source (P : Par) (scheme : Bytes) (user : Lis
   · have hok' : urlOK P (urlV scheme user fragment rawQuery path rest) user fragment rawQuery = false := by simpa using hok
     obtain ⟨e, he⟩ := h2 hok'
     exact ⟨_, _, hfin _ _ he, by simp [hok']⟩
+
+/-- **urlOK_is_fileDecision**: the acceptance condition of the translated `newFileSinkFromURL` is the hand model's
+    `OpenBuild.fileDecision` on a URL record with the same emptiness facts -/
+theorem urlOK_is_fileDecision (P : Par) (uV : Val) (user : List Val) (fragment rawQuery : Bytes) (u : OpenBuild.URL)
+    (h1 : u.user = !user.isEmpty) (h2 : u.fragment = "" ↔ fragment = []) (h3 : u.rawQuery = "" ↔ rawQuery = [])
+    (h4 : u.port = "" ↔ P.port uV = []) (h5 : u.hostname = "" ↔ P.hostname uV = [])
+    (h6 : u.hostname = "localhost" ↔ P.hostname uV = [108, 111, 99, 97, 108, 104, 111, 115, 116]) :
+    urlOK P uV user fragment rawQuery = (OpenBuild.fileDecision u).isSome := by
+  simp only [urlOK, OpenBuild.fileDecision, h1]
+  cases user with
+  | cons x xs => simp
+  | nil =>
+    by_cases f2 : fragment = []
+    · by_cases f3 : rawQuery = []
+      · by_cases f4 : P.port uV = []
+        · by_cases f5 : P.hostname uV = []
+          · simp [f2, f3, f4, f5, h2.mpr f2, h3.mpr f3, h4.mpr f4, h5.mpr f5]
+          · by_cases f6 : P.hostname uV = [108, 111, 99, 97, 108, 104, 111, 115, 116]
+            · simp [f2, f3, f4, f6, h2.mpr f2, h3.mpr f3, h4.mpr f4, h6.mpr f6]
+            · have n5 : ¬ u.hostname = "" := fun h => f5 (h5.mp h)
+              have n6 : ¬ u.hostname = "localhost" := fun h => f6 (h6.mp h)
+              simp [f2, f3, f4, f5, f6, h2.mpr f2, h3.mpr f3, h4.mpr f4, n5, n6]
+        · have n4 : ¬ u.port = "" := fun h => f4 (h4.mp h)
+          simp [f2, f3, f4, h2.mpr f2, h3.mpr f3, n4]
+      · have n3 : ¬ u.rawQuery = "" := fun h => f3 (h3.mp h)
+        simp [f2, f3, h2.mpr f2, n3]
+    · have n2 : ¬ u.fragment = "" := fun h => f2 (h2.mp h)
+      simp [f2, n2]
 
 /-- `newSink(rawURL)`: an absolute path bypasses URL parsing; a parse error opens nothing; an empty scheme means `file`;
     the factory map is read under the registry's mutex; a missing scheme is `errSinkNotFound`; the factory is called
